@@ -103,10 +103,15 @@ def text_cases(rng, tier):
                 cid += 1
                 yield cid, kind, p, s
     # regex: implementation vs an anchored regex-automata search (no model)
-    for _ in range(400 if tier == "quick" else 5000):
+    for _ in range(600 if tier == "quick" else 6000):
         s = [rng.choice([97, 98, 99, 48, 49, 46, 32, 233, 10]) for _ in range(rng.randint(0, 7))]
         cid += 1
-        yield cid, "str", ["regex", rng.randint(0, 9)], s
+        yield cid, "str", ["regex", rng.randint(0, 15)], s
+        # the same patterns (incl. look-behind assertions \b \B ^ (?m)^ $) at a non-zero position, &str and &[u8]
+        for _ in range(2):
+            cid += 1
+            k = rng.randint(0, max(1, len(s)))
+            yield cid, ("bytes" if (rng.random() < 0.3 and all(t < 128 for t in s)) else "str"), ["regexat", rng.randint(0, 15), k], s
 
 def check_c14(pid, tier, seed):
     """Returns dict(stats, samples, violations[(kind, text, info)], known_lines, rule)."""
@@ -126,7 +131,7 @@ def check_c14(pid, tier, seed):
         tlines.append(sx([cid, kind, p, s]))
         meta[cid] = (kind, p, s)
         h = p[0] if isinstance(p, list) else p
-        if h == "regex": continue
+        if h in ("regex", "regexat"): continue
         g = model_grammar(p, kind, tab, chars)
         lazy = ["ThenIgnore", g, ["RepUnit", ["IRep", "Any", 0, "inf"]]]
         mlines.append(sx([2 * cid, "slice", "simple", "parse", lazy, s]))
@@ -144,7 +149,7 @@ def check_c14(pid, tier, seed):
         res["stats"]["evaluations"] += 1
         parts = r.split()
         pref, full = parts[0], parts[1]
-        if h == "regex":
+        if h in ("regex", "regexat"):
             res["stats"]["regex_cases"] += 1
             if len(parts) > 2 and parts[2][1:] != pref[1:]:
                 regex_bad.append((cid, r))
@@ -162,7 +167,7 @@ def check_c14(pid, tier, seed):
             res["samples"].append(dict(case=sx([cid, kind, p, s]), impl=r, machine=" ".join(mview(mach)), sem=" ".join(mview(semr))))
     res["stats"]["distinct_nontrivial"] = len(seen)
     res["stats"]["tie_failures"] = len(tie_bad)
-    res["stats"]["oracle_failures"] = len(sem_bad)
+    res["stats"]["oracle_failures"] = len(sem_bad) + len(regex_bad)
     # &str vs &[u8] on ASCII text
     sb_bad = []
     for (p, s), d in byinput.items():
